@@ -521,6 +521,35 @@ var ruleKeyM2 = &Rule{
 			names = append(names, n)
 		}
 		sort.Strings(names)
+		// a private map field that was renamed: when the owner type has map operations on exactly one field, that
+		// field is the slot (LRUCache has one map; AllProject / FileIndexInfo have several and stay name-keyed)
+		for _, n := range names {
+			if hasStore[n] {
+				continue
+			}
+			owner := n[:strings.Index(n, ".")+1]
+			only := ""
+			for other := range hasStore {
+				if strings.HasPrefix(other, owner) {
+					if only != "" && only != other {
+						only = "?"
+					} else if only == "" {
+						only = other
+					}
+				}
+			}
+			for other := range delFromRemove {
+				if strings.HasPrefix(other, owner) && only != "" && only != other {
+					only = "?"
+				}
+			}
+			if only != "" && only != "?" {
+				if _, listed := perFileMaps[only]; !listed {
+					hasStore[n] = true
+					delFromRemove[n] = delFromRemove[only]
+				}
+			}
+		}
 		for _, n := range names {
 			key := "KEY/M2:" + n
 			switch {
